@@ -61,7 +61,7 @@ SPEC = {
     "lean_targets": ["PdModel.Props.C08", "Audit.C08"],
     "audit": "Audit/C08.lean",
     "lean_files": ["PdModel/Model/Steps.lean", "PdModel/Model/Builder.lean", "PdModel/Spec/C08.lean",
-                   "PdModel/Lemmas/Builder.lean", "PdModel/Lemmas/BuilderJoint.lean", "PdModel/Lemmas/BuilderJoint2.lean", "PdModel/Lemmas/BuilderCalls.lean", "PdModel/Lemmas/BuilderLeave.lean", "PdModel/Props/C08.lean", "PdModel/Driver/Builder.lean"],
+                   "PdModel/Lemmas/Builder.lean", "PdModel/Lemmas/BuilderJoint.lean", "PdModel/Lemmas/BuilderJoint2.lean", "PdModel/Lemmas/BuilderCalls.lean", "PdModel/Lemmas/BuilderLeave.lean", "PdModel/Lemmas/BuilderExec.lean", "PdModel/Lemmas/BuilderDiff.lean", "PdModel/Lemmas/BuilderSingle.lean", "PdModel/Props/C08.lean", "PdModel/Driver/Builder.lean"],
     "gen": {
         # exhaustive <= 5 stores (3 configurations, split over the streams) + random 6-8 stores
         "quick": {"args": ["-k", "5", "-parts", "8", "-n", "150", "-len", "40"], "streams": 8},
@@ -88,16 +88,19 @@ SPEC = {
                   "NewBuilder(region).<any recording calls>.Build() on a well-formed region is a SafePlan (every step's "
                   "CheckSafety holds when its turn comes, leader never removed/demoted, transfers only to full voters, one "
                   "peer per store, voters >= min(origin, target), final peers/roles/leader = requested); "
-                  "build_leave_joint_safe for CreateLeaveJointStateOperator; checkSafePlan_iff for the checker. The "
-                  "non-joint greedy builder (peerPlan) and the single-change path are not proved: they are tied by "
+                  "build_leave_joint_safe for CreateLeaveJointStateOperator; build_single_change_safe / "
+                  "buildWith_single_change_safe - the non-joint builder (peerPlan, planners, comparePlan, final transfer) "
+                  "whenever at most one peer change is pending, which is the only way it runs while joint consensus is on; "
+                  "checkSafePlan_iff for the checker. The non-joint greedy builder with several pending changes is not "
+                  "proved: it is tied by "
                   "exhaustive enumeration <= 5 stores (model = code on 1.29M builds, 0 disagreements) with the proved "
                   "checker as monitor; two input classes on which the pinned builder is unsafe are proved counterexamples "
                   "(F5a, F5b) and reported as known findings.",
     "level_note": "Trusted: Lean kernel + 3 standard axioms; the hand-written model of builder.go/step.go (tied by exact "
                   "step-list comparison on exhaustive small domains and random larger ones); Steps.apply as the semantics "
                   "of a store executing a step; harness canonicalisation of allocated peer ids; placement rules enter as a "
-                  "per-build verdict computed by the real FitRegion/MatchLabelConstraints. Not proved: build_nojoint_safe_partial, "
-                  "build_single_change_safe (see docs/C08.md).",
+                  "per-build verdict computed by the real FitRegion/MatchLabelConstraints. Not proved: build_nojoint_safe_partial for two or more "
+                  "pending changes without joint consensus (see docs/C08.md).",
     "technique": "Lean 4 theorems over a functional translation of the builder + exhaustive/differential correspondence + verified monitor",
     "assumptions": [
         "a store executes a step as Steps.apply describes (faithful TiKV); peer ids of new peers come from the id allocator (an input)",
